@@ -382,6 +382,21 @@ def post_angle(ctx, call):
             # identical directions inside a collection: the equality short-cut is all-or-nothing (known finding of C04), not judged here
             cu = np.linalg.norm(np.cross(u, v)) if len(u) == 3 else abs(u[0] * v[1] - u[1] * v[0])
             if cu < 1e-9 * np.linalg.norm(u) * np.linalg.norm(v):
+                def _par(w):
+                    if w is None or w[0] == "deg":
+                        return False
+                    cw = np.linalg.norm(np.cross(w[1], w[2])) if len(w[1]) == 3 else abs(w[1][0] * w[2][1] - w[1][1] * w[2][0])
+                    return cw < 1e-9 * np.linalg.norm(w[1]) * np.linalg.norm(w[2])
+
+                if cshape and not all(_par(w) for _, _, w in refs):
+                    # parallel directions at some positions of a collection only: the equality short-cut is all-or-nothing (finding F27 of C04)
+                    ctx.skip("angle", "coincident directions at some positions of a collection (degenerate)")
+                    continue
+                if len(args) == 2 and all(isinstance(a, LineTensor) for a in args) and not any(
+                        X.proj_residual(np.ravel(elem(args[0], p_)), np.ravel(elem(args[1], p_))) < 1e-9 for p_, _, _ in refs):
+                    # two distinct parallel lines (every position): the angle is 0
+                    ctx.judge("angle", False, es, what=f"angle of two distinct parallel lines = {got}, expected 0 (mod pi)", op="angle", feat={**feat, "parallel": True}, nontrivial=True)
+                    continue
                 ctx.skip("angle", "coincident directions (degenerate)")
                 continue
             ctx.judge("angle", False, es, what=f"angle = {got} is not a finite real number", op="angle", feat=feat)
@@ -499,6 +514,15 @@ def g_dist(ctx, rng, i):
         g.dist(g.Point(*V[0]), poly)
         g.dist(g.Point(*((V[0] + V[1]) / 2)), poly)
         poly.angles
+        # triangles in both orientations (their own membership code path): interior, boundary and exterior points
+        T3 = np.array([gen.coords(rng, (2,), 6, "int") for _ in range(3)], dtype=float)
+        if abs(np.linalg.det(np.c_[T3, np.ones(3)])) > 0.5:
+            for order in ((0, 1, 2), (0, 2, 1)):
+                tri = g.Triangle(*[g.Point(*T3[k]) for k in order])
+                g.dist(g.Point(*T3.mean(axis=0)), tri)
+                g.dist(tri, g.Point(*((T3[0] + T3[1]) / 2)))
+                g.dist(_pt(rng, 2, mode), tri)
+                g.dist(tri, g.Point(*(2 * T3[0] - T3.mean(axis=0))))
         off = gen.nonzero_vec(rng, 2, 5)
         for mp in (poly + g.Point(*off.tolist()), (g.translation(*off.tolist()) * g.rotation(float(rng.uniform(-3, 3)))) * poly):
             g.dist(_pt(rng, 2, mode), mp)
@@ -632,6 +656,21 @@ def g_angle(ctx, rng, i):
         ang(g.Line(gen.nonzero_vec(rng, 3, 5)), g.Line(gen.nonzero_vec(rng, 3, 5)))
         ang(g.Line(1, 0, -3), l)  # vertical line
         ang(l, g.Line(0, 1, 2))
+    # distinct parallel lines (angle 0), single and as collections in which every pair is parallel, also axis parallel ones
+    off = gen.nonzero_vec(rng, dim, 3)
+    lp = l + g.Point(*[int(x) for x in off])
+    ang(l, lp)
+    ang(lp, l)
+    ang(l, l.parallel(c))
+    e1 = np.zeros(dim + 1)
+    e1[0] = 1
+    ax1, ax2 = g.Line(a, g.Point(np.asarray(a.normalized_array, dtype=float) + e1)), g.Line(c, g.Point(np.asarray(c.normalized_array, dtype=float) + e1))
+    ang(ax1, ax2)
+    try:
+        LL, MM = g.LineCollection([l, m]), g.LineCollection([lp, m + g.Point(*[int(x) for x in off])])
+        ang(LL, MM)
+    except Exception:
+        pass
     ang(b, c)
     if dim == 2:
         ang(l, c)
